@@ -226,11 +226,19 @@ impl<'a> KvxSetIter<'a> { pub uninterp spec fn set(&self) -> Set<String>;
     // collect::<BTreeSet<String>>(): the same members
     #[verifier::external_body] pub fn collect(self) -> (r: BTreeSet<String>) ensures r@ == self.set() { unimplemented!() }
     // map(f).collect::<Vec<String>>() is only used to print the scopes in a debug message: unspecified
-    #[verifier::external_body] pub fn map<F: Fn(&'a String) -> String>(self, f: F) -> (r: KvxStrVecSrc) { unimplemented!() } }
+    #[verifier::external_body] pub fn map<F: Fn(&'a String) -> String>(self, f: F) -> (r: KvxStrVecSrc) { unimplemented!() }
+    #[verifier::external_body] pub fn filter<F: Fn(&&'a String) -> bool>(self, g: Ghost<spec_fn(String) -> bool>, f: F) -> (r: KvxSetFilter<'a>)
+        requires forall|s: &&'a String| #[trigger] f.requires((s,)), forall|s: &&'a String, o: bool| #[trigger] f.ensures((s,), o) ==> o == g@(**s)
+        ensures forall|s: String| #[trigger] r.kept().contains(s) <==> (self.set().contains(s) && g@(s)) { unimplemented!() } }
 pub struct KvxStrVecSrc { pub o: u8 }
 impl KvxStrVecSrc { #[verifier::external_body] pub fn collect(self) -> (r: Vec<String>) { unimplemented!() } }
 pub struct KvxSetIntoIter { pub s: Ghost<Set<String>> }
-impl KvxSetIntoIter { #[verifier::external_body] pub fn collect(self) -> (r: BTreeSet<String>) ensures r@ == self.s@ { unimplemented!() } }
+impl KvxSetIntoIter { #[verifier::external_body] pub fn collect(self) -> (r: BTreeSet<String>) ensures r@ == self.s@ { unimplemented!() }
+    #[verifier::external_body] pub fn chain<'a>(self, o: KvxSetIter<'a>) -> (r: KvxSetIntoIter) ensures r.s@ == self.s@.union(o.set()) { unimplemented!() } }
+// `set.iter().filter(f).collect::<BTreeSet<&String>>()`: the members for which f holds (std documentation), through f's checked contract
+#[verifier::external_body] pub struct KvxSetFilter<'a> { p: core::marker::PhantomData<&'a String> }
+impl<'a> KvxSetFilter<'a> { pub uninterp spec fn kept(&self) -> Set<String>;
+    #[verifier::external_body] pub fn collect(self) -> (r: BTreeSet<&'a String>) ensures forall|s: String| #![trigger r@.contains(&s)] #![trigger self.kept().contains(s)] r@.contains(&s) <==> self.kept().contains(s), (r@ =~= Set::<&'a String>::empty()) == (self.kept() =~= Set::<String>::empty()) { unimplemented!() } }
 impl BTreeSet<String> { #[verifier::external_body] pub fn into_iter(self) -> (r: KvxSetIntoIter) ensures r.s@ == self@ { unimplemented!() } }
 impl BTreeSet<String> { #[verifier::external_body] pub fn iter(&self) -> (r: KvxSetIter<'_>) ensures r.set() == self@ { unimplemented!() } }
 pub assume_specification<T>[ bool::then_some ](b: bool, t: T) -> (r: Option<T>)
